@@ -40,6 +40,30 @@ let () =
                let h = (match lookup s_header s2 with Some j -> dumpj j | None -> "-") in
                "P=" ^ p ^ "\tH=" ^ h)))
     | _ -> "ERR");
+  (* one template applied to several keys: every key starts from the caller's template (jose deep-copies it) and the
+     template itself is left as it was *)
+  register "sigmulti" (fun f ->
+    let sg = need f.(1) in
+    let keys = (match need f.(2) with JArr l -> l | j -> [j]) in
+    let one jwk =
+      match sig_find_alg sug_sign sg jwk with
+      | None -> None
+      | Some (a, s1) when not (sig_key_ok a.sa_name jwk) -> None
+      | Some (_, s1) ->
+        (match encode_protected s1 with
+         | None -> None
+         | Some s2 ->
+           (match prefix_bytes s2 with
+            | None -> None
+            | Some _ ->
+              let p = (match lookup s_protected s2 with
+                       | Some (JStr s) -> (match jose_b64_dec_load (JStr s) with Some j -> dumpj j | None -> "null")
+                       | _ -> "null") in
+              let h = (match lookup s_header s2 with Some j -> dumpj j | None -> "-") in
+              Some ("P=" ^ p ^ " H=" ^ h ^ "\t"))) in
+    let rs = List.map one keys in
+    if keys = [] || List.exists (fun r -> r = None) rs then "ERR" ^ "T=" ^ dumpj sg
+    else String.concat "" (List.map (function Some s -> s | None -> "") rs) ^ "T=" ^ dumpj sg);
   register "encalg" (fun f ->
     match enc_cek_prepare real_sug_encr (need f.(1)) (need f.(2)) with
     | None -> "ERR"
